@@ -461,6 +461,9 @@ impl vstd::std_specs::cmp::PartialEqSpecImpl for HashAlgorithm {
 //@trusted T4 s2k_usage_aead(derived, tag, key, sym, aead) (byte layout: unit U91) returns the HKDF output keying material aead_okm(derived, tag, version, sym, aead) - 32 octets - and the associated data aead_ad(tag, wire(key)): both uninterpreted here; it fails only if the key cannot be serialised
 pub uninterp spec fn aead_okm(derived: Seq<u8>, tag: Tag, ver: KeyVersion, sym: SymmetricKeyAlgorithm, aead: AeadAlgorithm) -> Seq<u8>;
 pub uninterp spec fn aead_ad(tag: Tag, kwire: Seq<u8>) -> Seq<u8>;
+#[verifier::external_body]
+pub proof fn axiom_aead_okm_len(derived: Seq<u8>, tag: Tag, ver: KeyVersion, sym: SymmetricKeyAlgorithm, aead: AeadAlgorithm)
+    ensures aead_okm(derived, tag, ver, sym, aead).len() == 32 {}
 pub uninterp spec fn key_serialisable(kwire: Seq<u8>) -> bool;
 #[verifier::external_body]
 pub fn s2k_usage_aead<K: KeyDetails + Serialize>(derived: &[u8], secret_tag: Tag, pub_key: &K, sym_alg: SymmetricKeyAlgorithm, aead_mode: AeadAlgorithm) -> (r: errors::Result<([u8; 32], Vec<u8>)>)
